@@ -70,6 +70,7 @@ class World:
         self.procs[MAIN_PID] = main
         self.urandom_ctr = 0
         self.urandom_log = []
+        self.urandom_prefix = b''         # harness-chosen leading bytes
         self.io_log = []                 # (op, fd, n) when io_logging
         self.io_logging = False
         self.io_policy = None            # f(world, op, fd, n) -> answer
@@ -593,7 +594,7 @@ def v_urandom(n):
     w = _active()
     if w is None:
         return _real['urandom'](n)
-    out = bytearray()
+    out = bytearray(w.urandom_prefix)
     while len(out) < n:
         w.urandom_ctr += 1
         out += w.urandom_ctr.to_bytes(4, 'big') * 1
